@@ -34,6 +34,7 @@ class Prov:
     elem: Optional[ast.AST] = None      # expression appended / comprehension element
     index: Optional[str] = None         # name bound to the enumerate index in `loop`, with `start`
     start: Optional[int] = None
+    lst: Optional[str] = None           # name of the list the loop appends to (when built by append)
 
     def weaker(self, kind):
         return "filter" if "filter" in (self.kind, kind) else "map"
@@ -158,7 +159,7 @@ def provenance(ctx: Ctx, expr) -> Optional[Prov]:
             if p is None:
                 return None
             elem = appends[0].args[0] if len(appends) == 1 and len(appends[0].args) == 1 else None
-            return Prov(p.root, p.weaker(kind), p.reordered, p.why, lp, fn, elem, idx, start)
+            return Prov(p.root, p.weaker(kind), p.reordered, p.why, lp, fn, elem, idx, start, name)
         if len(defs) != 1:
             return None
         return nxt(defs[0].value)
